@@ -6,6 +6,7 @@ Driver ops for the relation store model (property C11).
 
 relation token  `x:cofactor:cyclelen:F`, `F` = `p^k*p^k*...` (`m1` = -1) or `-` (no factor)
 history         items joined by `;`, item = `<rel>|<pq>` or `<tid>|<rel>|<pq>`, `<pq>` = `p,q` or `-`
+                (items `new|<n>|<fbsize>|<maxlarge>` of a recorded history are skipped)
 
   rel_verify n rel                       -> true | false | panic
   rs_combine n rel1 rel2                 -> rel | panic
@@ -64,7 +65,7 @@ def parseItem (s : String) : Option (Relation × Option (Nat × Nat)) :=
   | _ => none
 
 def parseHistory (s : String) : Option (List (Relation × Option (Nat × Nat))) :=
-  if s = "-" then some [] else (s.splitOn ";").mapM parseItem
+  if s = "-" then some [] else ((s.splitOn ";").filter (fun t => !t.startsWith "new|" && !t.startsWith "final|")).mapM parseItem
 
 def cap3 (v : Nat) : String := toString (min v 3)
 
